@@ -367,22 +367,30 @@ pub fn in_fresh_thread<R: Send>(f: impl FnOnce() -> R + Send) -> R {
 /// helper lives for one run only: its history is a function of the scenario.
 pub struct Helper {
     tx: Option<std::sync::mpsc::Sender<Box<dyn FnOnce() + Send + 'static>>>,
+    /// signalled by the helper's loop after a job has *returned* (not from inside the
+    /// job: the job's frame still holds the borrowed references until it returns)
+    done: std::sync::mpsc::Receiver<()>,
     handle: Option<std::thread::JoinHandle<()>>,
 }
 
 impl Helper {
     pub fn new() -> Helper {
         let (tx, rx) = std::sync::mpsc::channel::<Box<dyn FnOnce() + Send + 'static>>();
+        let (done_tx, done) = std::sync::mpsc::channel::<()>();
         let handle = std::thread::Builder::new()
             .stack_size(RUN_STACK)
             .spawn(move || {
                 for job in rx {
                     job();
+                    if done_tx.send(()).is_err() {
+                        break;
+                    }
                 }
             })
             .expect("SIM-HARNESS: cannot spawn the helper thread");
         Helper {
             tx: Some(tx),
+            done,
             handle: Some(handle),
         }
     }
@@ -413,12 +421,15 @@ impl Helper {
             let _ = rtx.send(Carry(r));
         });
         // SAFETY: the job borrows from the caller's frame ('a).  This function does not
-        // return before the job has run to completion (a result or a panic was received)
-        // or was dropped unrun (the helper is gone: recv fails), so the borrows never
-        // outlive their owners.
+        // return before the job has run and *returned* on the helper (the helper's loop
+        // signals `done` after the call), or was dropped unrun (the helper is gone: recv
+        // fails), so the borrows never outlive their owners.
         let job: Box<dyn FnOnce() + Send + 'static> = unsafe { std::mem::transmute(job) };
         self.tx.as_ref().expect("helper already shut down").send(job).expect("SIM-HARNESS: helper thread is gone");
-        match rrx.recv().map(Carry::into_inner) {
+        if self.done.recv().is_err() {
+            panic!("SIM-HARNESS: helper thread died");
+        }
+        match rrx.try_recv().map(Carry::into_inner) {
             Ok(Ok(v)) => v,
             Ok(Err((payload, last))) => {
                 LAST_PANIC.with(|p| *p.borrow_mut() = last);
